@@ -7,6 +7,7 @@ package interp
 import (
 	"bytes"
 	"fmt"
+	"sort"
 	"go/constant"
 	"go/token"
 	"go/types"
@@ -1173,7 +1174,13 @@ func callBuiltin(caller *frame, callpos token.Pos, fn *ssa.Builtin, args []value
 func rangeIter(x value, t types.Type) iter {
 	switch x := x.(type) {
 	case map[value]value:
-		return &mapIter{iter: reflect.ValueOf(x).MapRange()}
+		// deterministic order (sorted by printed key) so that replays of a decision vector agree
+		keys := make([]value, 0, len(x))
+		for k := range x {
+			keys = append(keys, k)
+		}
+		sort.Slice(keys, func(i, j int) bool { return toString(keys[i]) < toString(keys[j]) })
+		return &sortedMapIter{m: x, keys: keys}
 	case *hashmap:
 		return &hashmapIter{iter: reflect.ValueOf(x.entries()).MapRange()}
 	case string:
@@ -1609,4 +1616,19 @@ func fandbits[F floaty](x, y F) F {
 		*(*uint64)(unsafe.Pointer(&x)) &= *(*uint64)(unsafe.Pointer(&y))
 	}
 	return x
+}
+
+type sortedMapIter struct {
+	m    map[value]value
+	keys []value
+	pos  int
+}
+
+func (it *sortedMapIter) next() tuple {
+	if it.pos >= len(it.keys) {
+		return []value{false, nil, nil}
+	}
+	k := it.keys[it.pos]
+	it.pos++
+	return []value{true, k, it.m[k]}
 }
